@@ -148,17 +148,29 @@ namespace
                 g_pol.target_fd = peer->fd();
             }
             auto issue = [plan, peer, tr](int issuer) {
+                // In every other case (derived from the number of writes, no choice consumed) the first issuer
+                // first queues a write for a connection that is no longer there - what a handler does that kept
+                // a peer and answers after the client has closed; a descriptor number far above anything open
+                // takes the same path (not among the transport's peers).  It must simply be skipped: the writes
+                // queued behind it, for a peer that is connected and reading, are delivered as always.
+                if (issuer == (plan->issuers ? 0 : 0) && plan->writes.size() % 2 == 0)
+                {
+                    static const std::string ghost = "write for a connection that has gone";
+                    tr->asyncWrite(1 << 20, RawBuffer(ghost.data(), ghost.size()));
+                }
                 for (auto& ws : plan->writes)
                 {
                     if (ws.issuer != issuer)
                         continue;
                     WriteSpec* p = &ws;
-                    auto onful   = [p](ssize_t n) {
+                    // (the continuations keep the plan alive: a write that is released only after the case has
+                    // ended - which is itself a failure the oracle reports - must not touch freed memory)
+                    auto onful   = [p, plan](ssize_t n) {
                         p->value              = n;
                         p->accepted_at_fulfil = g_pol.accepted.load();
                         ++p->fulfilled;
                     };
-                    auto onrej = [p](std::exception_ptr) { ++p->rejected; };
+                    auto onrej = [p, plan](std::exception_ptr) { ++p->rejected; };
                     if (ws.file)
                         tr->asyncWrite(peer->fd(), FileBuffer(ws.path)).then(onful, onrej);
                     else if (ws.len % 2)
